@@ -53,25 +53,28 @@ def depsOf (provides : List (α × Nat)) (t : Tgt α) : List Nat × List α :=
 /-- dependency lookup as a function (empty for unknown ids, like the `defaultdict`) -/
 def depFn (deps : List (Nat × List Nat)) (t : Nat) : List Nat := (alook t deps).getD []
 
+/-- one iteration of `for dep in dependencies[node]` inside `visitor`: `blocked` are the nodes
+    whose state is `started` (the recursion stack incl. the current node) -/
+def cstep (vis : List Nat → Nat → Option (List Nat)) (blocked : List Nat)
+    (acc : Option (List Nat)) (d : Nat) : Option (List Nat) :=
+  match acc with
+  | none => none
+  | some dn =>
+    if d ∈ blocked then none          -- state[dep] == started → CircularDependencyError
+    else if d ∈ dn then some dn       -- state[dep] == done
+    else vis dn d                     -- state[dep] == fresh → visitor(dep)
+
 /-- `visitor(node)` of `check_for_circular_dependencies`: `started` is the recursion stack,
-    `done` the finished nodes; `none` = CircularDependencyError (or fuel exhausted) -/
+    `done` the finished nodes (newest first); `none` = CircularDependencyError (or fuel exhausted) -/
 def cvisit (deps : Nat → List Nat) : Nat → List Nat → List Nat → Nat → Option (List Nat)
   | 0, _, _, _ => none
   | fuel+1, started, done, node =>
-    ((deps node).foldl (fun (acc : Option (List Nat)) d =>
-        match acc with
-        | none => none
-        | some dn =>
-          if d ∈ node :: started then none
-          else if d ∈ dn then some dn
-          else cvisit deps fuel (node :: started) dn d) (some done)).map (node :: ·)
+    ((deps node).foldl (cstep (fun dn d => cvisit deps fuel (node :: started) dn d) (node :: started))
+      (some done)).map (node :: ·)
 
 /-- the outer loop `for node in nodes: if state[node] == fresh: visitor(node)` -/
 def checkCycles (deps : Nat → List Nat) (fuel : Nat) (nodes : List Nat) : Option (List Nat) :=
-  nodes.foldl (fun (acc : Option (List Nat)) n =>
-    match acc with
-    | none => none
-    | some dn => if n ∈ dn then some dn else cvisit deps fuel [] dn n) (some [])
+  nodes.foldl (cstep (fun dn n => cvisit deps fuel [] dn n) []) (some [])
 
 structure Graph (α : Type) where
   ids        : List Nat                  -- target ids in definition order
